@@ -35,6 +35,7 @@ type vDB struct {
 	sched    int
 	autoSched bool // run a pending flush at solver/fork-chosen sync points inside client calls
 	cycles   int
+	gate     chan struct{} // native runs of gated harnesses: one token lets the stalled flusher write one table
 }
 
 var vUniverse = [][]byte{{'a'}, {'b'}}
@@ -173,13 +174,17 @@ func (h *vDB) checkReads(id string) {
 }
 
 func (h *vDB) put(k, v []byte) {
-	vrt.Assert(h.db.PutBytes(k, v) == nil, "db/put-no-error")
+	var err error
+	h.call(func() { err = h.db.PutBytes(k, v) })
+	vrt.Assert(err == nil, "db/put-no-error")
 	r := h.refOf(k)
 	r.val, r.present = v, true
 }
 
 func (h *vDB) del(k []byte) {
-	vrt.Assert(h.db.DeleteBytes(k) == nil, "db/delete-no-error")
+	var err error
+	h.call(func() { err = h.db.DeleteBytes(k) })
+	vrt.Assert(err == nil, "db/delete-no-error")
 	r := h.refOf(k)
 	r.val, r.present = nil, false
 }
@@ -223,7 +228,9 @@ func (h *vDB) compactionCycleBody() {
 }
 
 func (h *vDB) close() {
-	vrt.Assert(h.db.Close() == nil, "db/close-no-error")
+	var err error
+	h.call(func() { err = h.db.Close() })
+	vrt.Assert(err == nil, "db/close-no-error")
 	vrt.Assert(h.pending == nil, "db/close-waits-for-the-flusher")
 }
 
